@@ -39,6 +39,7 @@ type Tap struct {
 
 	mu   sync.Mutex
 	invs []*Inv
+	base int // number of invocations already dropped from invs (memory bound for long runs)
 	seq  int
 
 	// Recover: handler panics are recovered and recorded (C14) instead of
@@ -76,8 +77,12 @@ func (t *Tap) Invocations() []*Inv {
 func (t *Tap) Count() int {
 	t.mu.Lock()
 	defer t.mu.Unlock()
-	return len(t.invs)
+	return t.base + len(t.invs)
 }
+
+// maxKept bounds the invocation log: indices stay monotonic (Count/Since), old
+// entries are dropped.
+const maxKept = 20000
 
 // CountConn returns the number of invocations on one connection.
 func (t *Tap) CountConn(conn int) int {
@@ -97,6 +102,13 @@ func (t *Tap) Since(from int) []*Inv {
 	t.mu.Lock()
 	defer t.mu.Unlock()
 	var out []*Inv
+	from -= t.base
+	if from < 0 {
+		from = 0
+	}
+	if from > len(t.invs) {
+		from = len(t.invs)
+	}
 	for _, v := range t.invs[from:] {
 		c := *v
 		out = append(out, &c)
@@ -143,6 +155,11 @@ func (m *monHandler) Handle(resp tq.Response, req tq.Request) {
 	}
 	t.mu.Lock()
 	t.invs = append(t.invs, inv)
+	if len(t.invs) > maxKept {
+		drop := len(t.invs) - maxKept/2
+		t.invs = append([]*Inv{}, t.invs[drop:]...)
+		t.base += drop
+	}
 	t.mu.Unlock()
 	defer func() {
 		if recov {
